@@ -26,7 +26,7 @@ Review recorded here:
 """
 import json, glob, sys, re
 
-DROP = [r'^harness-', r'^hang:', r'^canary-after', r' fmt dirs=', r'^hang-or-oom ', r'^probe-died ']  # 'fmt dirs=' is the signature shape of an earlier version of the check
+DROP = [r'^harness-', r'^hang:', r'^canary-after', r' fmt dirs=', r'^hang-or-oom ', r'^probe-died ', r'evaluator arg=']  # the evaluator signature is no longer produced since 67f6fa3  # 'fmt dirs=' is the signature shape of an earlier version of the check
 
 ROOT = [
     (r'^fault=index\[len0\] evaluator arg=\(values\)$',
@@ -67,6 +67,7 @@ HANGS = [
 # Repairs committed in /repo: entries of the previous findings file that no
 # longer reproduce and belong to one of these are kept as "fixed".
 FIXED = [
+    (r'evaluator arg=\(values\)', '67f6fa3', 'Function.Eval indexed vs[0] of an argument form that returned no values'),
     (r'fn=common-lisp:(case|ecase|defun|defmacro|shiftf|rotatef)( raw)?$', 'd874908', 'a special form called without arguments indexed args[0]'),
     (r'^fault=nil-deref fn=(common-lisp:(package-nicknames|export|unexport)|gi:(lock-package|unlock-package|package-locked-p))$', '3b1c274', 'an unknown package designator was dereferenced as a nil *Package'),
     (r'^fault=type-assertion\[not_slip.Octets\] fn=gi:', '2060702', 'a nil argument failed the unchecked slip.Octets type assertion'),
